@@ -248,6 +248,9 @@ func (pr *prover) lowerBound(v ssa.Value, pt point, depth int) (int64, bool) {
 		if cn := an.CallName(&x.Call); strings.HasPrefix(cn, "strings.Index") || strings.HasPrefix(cn, "strings.LastIndex") {
 			upd(-1) // documented: an index into the string, or -1
 		}
+		if _, lo, ok := indexHelper(pr.p, x); ok {
+			upd(lo)
+		}
 	case *ssa.Extract:
 		if c, ok := x.Tuple.(*ssa.Call); ok && x.Index == 1 {
 			if cn := an.CallName(&c.Call); cn == "unicode/utf8.DecodeRuneInString" || cn == "unicode/utf8.DecodeLastRuneInString" {
@@ -398,6 +401,31 @@ func (pr *prover) le(a, b term, pt point, depth int, seen map[[2]ssa.Value]bool)
 			}
 		}
 	case *ssa.Call:
+		if arg, _, ok := indexHelper(pr.p, x); ok && b.v != nil {
+			// result <= len(arg) - 1
+			if lc, ok := b.v.(*ssa.Call); ok {
+				if bi, ok := lc.Call.Value.(*ssa.Builtin); ok && bi.Name() == "len" && eqVal(lc.Call.Args[0], arg) && a.off <= b.off+1 {
+					return true
+				}
+			}
+			if vl, ok := b.v.(virtualLen); ok && eqVal(vl.x, arg) && a.off <= b.off+1 {
+				return true
+			}
+		}
+		if bi, ok := x.Call.Value.(*ssa.Builtin); ok && bi.Name() == "max" {
+			all := len(x.Call.Args) > 0
+			for _, arg := range x.Call.Args {
+				at := norm(arg)
+				at.off += a.off
+				if !pr.le(at, b, pt, depth+1, seen2) {
+					all = false
+					break
+				}
+			}
+			if all {
+				return true
+			}
+		}
 		if bi, ok := x.Call.Value.(*ssa.Builtin); ok && bi.Name() == "min" {
 			for _, arg := range x.Call.Args {
 				at := norm(arg)
@@ -797,4 +825,69 @@ func (pr *prover) boundedAbove(v ssa.Value, pt point, depth int) bool {
 		}
 	}
 	return false
+}
+
+// indexHelper: the call is to a module function every result of which is either a constant >= -1
+// or the index variable of a range loop over one of its string parameters; returns the argument
+// that is ranged over. Such a result r satisfies -1 <= r <= len(arg)-1 and is a rune boundary.
+func indexHelper(p *an.Prog, v ssa.Value) (ssa.Value, int64, bool) {
+	c, ok := v.(*ssa.Call)
+	if !ok {
+		return nil, 0, false
+	}
+	callee := c.Call.StaticCallee()
+	if callee == nil || !p.InModule(callee) || callee.Blocks == nil || callee.Signature.Results().Len() != 1 {
+		return nil, 0, false
+	}
+	var par *ssa.Parameter
+	minConst := int64(0)
+	okAll, n := true, 0
+	an.EachInstr(callee, func(in ssa.Instruction) {
+		ret, isRet := in.(*ssa.Return)
+		if !isRet {
+			return
+		}
+		for _, o := range an.Origins(ret.Results[0], an.StepValue) {
+			n++
+			if k, isC := an.ConstInt(o); isC {
+				if k < -1 {
+					okAll = false
+				}
+				if k < minConst {
+					minConst = k
+				}
+				continue
+			}
+			ex, isEx := o.(*ssa.Extract)
+			if !isEx || ex.Index != 1 {
+				okAll = false
+				continue
+			}
+			nx, isNx := ex.Tuple.(*ssa.Next)
+			if !isNx || !nx.IsString {
+				okAll = false
+				continue
+			}
+			rg, isRg := nx.Iter.(*ssa.Range)
+			if !isRg {
+				okAll = false
+				continue
+			}
+			pp, isPar := rg.X.(*ssa.Parameter)
+			if !isPar || (par != nil && par != pp) {
+				okAll = false
+				continue
+			}
+			par = pp
+		}
+	})
+	if !okAll || n == 0 || par == nil {
+		return nil, 0, false
+	}
+	for i, pp := range callee.Params {
+		if pp == par && i < len(c.Call.Args) {
+			return c.Call.Args[i], minConst, true
+		}
+	}
+	return nil, 0, false
 }
